@@ -130,6 +130,16 @@ Ltac tx :=
          f_old_cont f_old_brk f_old_ret f_old_err
          g_err g_ret g_brk g_cont g_next fst snd andb]; proj_simpl)).
 
+(* bodies of handlers that skip GetException leave by falling through or by return only *)
+Lemma trivial_oc : forall s, trivial s = true -> forall c,
+  fst (exec_sch fx sx s c) = ONorm \/ fst (exec_sch fx sx s c) = ORet.
+Proof.
+  induction s; simpl; try discriminate; intros T st; auto.
+  apply andb_prop in T. destruct T as [T1 T2].
+  specialize (IHs1 T1 st). destruct (exec_sch fx sx s1 st) as [o st1]. simpl in *.
+  destruct IHs1 as [-> | ->]; auto.
+Qed.
+
 Lemma lab_main : (forall s, PS s) /\ (forall hs, PH hs).
 Proof.
   apply cstmt_chandlers_ind; unfold PS, PH.
@@ -189,13 +199,124 @@ Proof.
       * reflexivity.
     + (* return *)
       destruct herr; tx; rewrite X4 by wf_done;
-        destruct (exec_sch fx sx fin q1) as [o2 q2]; destruct o2; unfold fin_copy; cbn [tr fst snd after]; congruence.
+        destruct (exec_sch fx sx fin q1) as [o2 q2]; destruct o2; unfold fin_copy; cbn [tr fst snd after]; proj_simpl; congruence.
     + (* break *)
       destruct herr; tx; rewrite X3 by wf_done;
-        destruct (exec_sch fx sx fin q1) as [o2 q2]; destruct o2; unfold fin_copy; cbn [tr fst snd after]; congruence.
+        destruct (exec_sch fx sx fin q1) as [o2 q2]; destruct o2; unfold fin_copy; cbn [tr fst snd after]; proj_simpl; congruence.
     + (* continue *)
       destruct herr; tx; rewrite X2 by wf_done;
-        destruct (exec_sch fx sx fin q1) as [o2 q2]; destruct o2; unfold fin_copy; cbn [tr fst snd after]; congruence.
+        destruct (exec_sch fx sx fin q1) as [o2 q2]; destruct o2; unfold fin_copy; cbn [tr fst snd after]; proj_simpl; congruence.
     + reflexivity.
-Admitted.
+  - (* CLoop *) intros k body IHb g c W. cbn [gen exec_sch].
+    destruct W as (W1 & W2 & W3 & W4). set (n := g_next g) in *.
+    gen_ih IHb. cbn [fst exec_lab].
+    revert c. induction k as [|k IHk]; intros c; [reflexivity|].
+    rewrite X by wf_done.
+    destruct (exec_sch fx sx body c) as [o q1]. cbn [fst snd].
+    destruct o; tx; try reflexivity; apply IHk.
+  - (* CReturn *) reflexivity.
+  - (* CBreak *) reflexivity.
+  - (* CContinue *) reflexivity.
+  - (* CDel *) reflexivity.
+  - (* CWithScope *) intros k body IHb g c W. cbn [gen exec_sch].
+    gen_ih IHb. cbn [fst exec_lab]. rewrite X by wf_done.
+    destruct (exec_sch fx sx body _) as [o q1]. cbn [fst snd].
+    destruct o; reflexivity.
+  - (* CExitExc *) intros k x g c W. cbn [gen fst exec_lab exec_sch].
+    destruct x as [| |m]; try reflexivity.
+    match goal with |- context [reraise_sch fx ?st] =>
+      pose proof (reraise_sch_raises fx st) as R; destruct (reraise_sch fx st) as [o q1] end.
+    simpl in *. rewrite err_to_tr; auto.
+  - (* CExitNone *) intros k x g c W. cbn [gen fst exec_lab exec_sch].
+    destruct (wx c); [|reflexivity].
+    destruct x as [| |m]; reflexivity.
+  - (* CHNil *) intros n gold g e saved c G1 G2 G3 G4 G5.
+    cbn [gen_h fst snd handle_lab handle_sch]. unfold tl_at. tx. reflexivity.
+  - (* CHCons *) intros pat name body IHb tl IHt n gold g e saved c G1 G2 G3 G4 G5.
+    cbn [gen_h handle_sch].
+    set (m := g_next g) in *.
+    gen_ih IHb.
+    pose proof (IHt n gold (restore g g0) e saved c) as XT.
+    genh_ih. cbn [fst handle_lab].
+    destruct (pat_matches pat (cls_of c e)).
+    + destruct ((match name with Some _ => true | None => false end) || negb (trivial body)) eqn:T.
+      * rewrite X by wf_done.
+        destruct (exec_sch fx sx body _) as [o q1]. cbn [fst snd].
+        unfold tl_at. destruct o; tx; reflexivity.
+      * rewrite X by wf_done.
+        apply orb_false_elim in T. destruct T as [_ T]. apply negb_false_iff in T.
+        pose proof (trivial_oc body T c) as TO.
+        destruct (exec_sch fx sx body c) as [o q1]. cbn [fst snd] in *.
+        unfold tl_at. destruct TO as [-> | ->]; tx; reflexivity.
+    + apply XT; proj_simpl; lia.
+Qed.
 End Lab.
+
+(* ---------- the statements used by Prop/C22.v ---------- *)
+
+(* every statement, every label state, every machine state: the generated label code leaves by
+   exactly the label that stands for the outcome the structural scheme computes *)
+Theorem gen_selects_scheme_continuation : forall fx sx s g c, wf g ->
+  exec_lab fx sx (fst (gen false s g)) c =
+  (tr g (fst (exec_sch fx sx s c)), snd (exec_sch fx sx s c)).
+Proof. intros fx sx s g c W. apply (proj1 (lab_main fx sx) s g c W). Qed.
+
+(* the labels current before a statement are current again after it *)
+Theorem gen_restores_labels : forall s g,
+  let g' := snd (gen false s g) in
+  g_err g' = g_err g /\ g_ret g' = g_ret g /\ g_brk g' = g_brk g /\ g_cont g' = g_cont g /\
+  g_next g <= g_next g'.
+Proof. intros s g. apply (proj1 gen_keeps s g). Qed.
+
+Lemma untr_tr o : untr g_fun (tr g_fun o) = o.
+Proof. destruct o; reflexivity. Qed.
+
+Lemma wf_fun : wf g_fun.
+Proof. unfold wf, g_fun; simpl; lia. Qed.
+
+(* whole functions, with-blocks included *)
+Theorem run_lab_eq_run_sch : forall fx sx s h t b,
+  run_lab false fx sx s h t b = run_sch fx sx s h t b.
+Proof.
+  intros fx sx s h t b. unfold run_lab, run_sch.
+  rewrite (gen_selects_scheme_continuation fx sx (desugar s) g_fun _ wf_fun).
+  rewrite untr_tr. destruct (exec_sch fx sx (desugar s) (init_state h t b)); reflexivity.
+Qed.
+
+Theorem lab_matches_reference : forall sx s h t b,
+  no_with s = true -> same_obs (run_ref s h t b) (run_lab false true sx s h t b).
+Proof. intros. rewrite run_lab_eq_run_sch. apply repaired_matches_reference; auto. Qed.
+
+Theorem lab_current_matches_reference_unless_crash : forall sx s h t b,
+  no_with s = true -> fst (run_lab false false sx s h t b) <> OCrash ->
+  same_obs (run_ref s h t b) (run_lab false false sx s h t b).
+Proof.
+  intros sx s h t b NW NC. rewrite run_lab_eq_run_sch in *.
+  apply current_matches_reference_unless_crash; auto.
+Qed.
+
+(* an exit taken in the else clause never reaches the except clauses of its own statement:
+   whatever they are, the exception arrives at the label that was the error label before the
+   statement, the return at the outer return label ... *)
+Theorem else_exits_bypass_own_handlers : forall fx sx body hs orelse g c c1 o c2,
+  wf g ->
+  exec_sch fx sx body c = (ONorm, c1) -> exec_sch fx sx orelse c1 = (o, c2) ->
+  o <> ONorm -> o <> OCrash ->
+  exec_lab fx sx (fst (gen false (CTry body hs orelse) g)) c =
+  (tr g o, set_top (if sx then top c else handled c) c2).
+Proof.
+  intros fx sx body hs orelse g c c1 o c2 W Eb Eo N1 N2.
+  rewrite gen_selects_scheme_continuation by exact W.
+  cbn [exec_sch]. rewrite Eb, Eo. destruct o; try congruence; reflexivity.
+Qed.
+
+(* sensitivity: with the error label switched only after the else clause was generated, an
+   exception raised in an else clause is caught by the statement's own matching handler *)
+Definition else_raises_matching : stmt :=
+  STry (SLog 1) (HCons (Some 3) None (SLog 2) HNil) (SRaise (RNew 3) NoCause).
+
+Theorem late_switch_refuted :
+  exists s h t b, no_with s = true /\
+    fst (run_lab true true true s h t b) = ONorm /\ fst (run_ref s h t b) = ORaise 0 /\
+    fst (run_lab false true true s h t b) = ORaise 0.
+Proof. exists else_raises_matching, [], None, None. vm_compute. auto. Qed.
